@@ -100,7 +100,7 @@ def run_seq_streams(run, a, pid, fail_pids, modes=('walk', 'boundary', 'pairs'),
     run.cov['evaluations'] = run.cov.get('evaluations', 0) + total_ops
     run.cov['distinct_nontrivial'] = run.cov.get('distinct_nontrivial', 0) + total_scripts
     run.cov['rule'] = ("T2: operation scripts on Bytes/BytesMut/Vec handles on the real crate under the ledger allocator: seeded random walks "
-                       "(mostly-valid arguments + boundary/out-of-contract stream) from 26 starting representations, and a boundary sweep "
+                       "(mostly-valid arguments + boundary/out-of-contract stream) from 28 starting representations, and a boundary sweep "
                        "(every starting representation x every single op x boundary arguments 0,1,len-1,len,len+1,cap,cap+1,2^63±1,2^64-1-k "
                        "+ random follow-ups), every script ending with all handles dropped in random order; debug and release profiles "
                        "incl. odd addresses and a packing allocator (adjacent buffers) (thorough: every profile x even/odd/alternating parity); distinct_nontrivial = scripts executed")
@@ -140,7 +140,7 @@ def core_check(pid, props_mod, fail_pids, modes=('walk', 'boundary', 'pairs'), s
         run.trusted += CORE_TRUST
         # the judge's oracles never fire on the model's own behaviour (no oracle demands more than M1 guarantees)
         orc = ['mustPanic_sound', 'opOracle_sound', 'opOracle_pack_weaker', 'frameOracle_sound', 'boundsOracle_sound', 'uniqOracle_sound',
-               'stateOracles_step_sound', 'lenCapOracle_sound', 'lenCapOracle_step_sound', 'boundsLenCap_sound']
+               'stateOracles_step_sound', 'lenCapOracle_sound', 'lenCapOracle_step_sound', 'boundsLenCap_sound', 'tryMutOracle_sound']
         reso = vlib.lake_build(['BytesVerif.Props.OracleSound'])
         fullo = ['BytesVerif.Judge.SeqJ.' + t for t in orc]
         if reso['BytesVerif.Props.OracleSound'][0]:
@@ -161,13 +161,15 @@ def core_check(pid, props_mod, fail_pids, modes=('walk', 'boundary', 'pairs'), s
             checks_buf.run_mut_stream(run, a, 'C02', vlib.cargo_build('debug'), {'C02'})
             run.trusted.append('BufMut side of C02: guard bytes around every fixed-size destination in the mut stream (M2 write model of C11), '
                                'and the reviewed unsafe-site inventory (Cert/C17)')
-        if pid == 'C04' and not a.replay:
-            # BytesMut regions under Extend / FromIterator driven by iterators with wrong size hints or panics (adv stream of C17)
+        if pid in ('C01', 'C02', 'C04') and not a.replay:
+            # BytesMut under Extend / FromIterator driven by iterators with wrong size hints or panics (adv stream of C17):
+            # exactly the yielded items are appended (C01), the region stays inside its allocation (C04), nothing is freed twice
+            # or used after free when the iterator panics (C02)
             binpath = os.path.join(os.path.dirname(vlib.cargo_build('debug')), 'hseq')
             out, hrc, jrc, herr = vlib.pipe([binpath, 'adv'], ['adv'])
             for ln in out:
                 tags, d = vlib.kv(ln)
-                if tags and tags[0] == 'oracle-fail' and 'C04' in (tags[1] if len(tags) > 1 else '').split('+'):
+                if tags and tags[0] == 'oracle-fail' and pid in (tags[1] if len(tags) > 1 else '').split('+'):
                     case = d.get('case', '-').replace('~', ' ')
                     run.fail('adv:' + case.split()[0][:50], ln[:400], f'# hseq adv   (case: {case})\n')
         if pid == 'C02' and run.tier == 'thorough' and not a.replay:
